@@ -42,19 +42,25 @@ CLAIMS = {
     'C11': ("Lean proof of the coverage-scoped semantics of boolean map/constant operators, invert involution, copying "
             "= in-place, lattice laws on common coverage; API LEVEL (29 theorems): exact error conditions, dense formula "
             "and coverage of a op b / a op const / invert for any mix of packed and plain operands, storage-blindness, "
-            "exact characterisation of where commutativity / De Morgan fail outside the common coverage; correspondence "
-            "over packed/unpacked mixes", NOTE, TECH, "6 C11 / AB.9"),
+            "exact characterisation of where commutativity / De Morgan fail outside the common coverage; HISTORY LEVEL "
+            "(Props/C11Dense): for every history of write and boolean lines the protocol refines a coverage-aware dense "
+            "interpreter (values + one coverage bit per coverage pixel): reachable_dense_bool; correspondence over "
+            "packed/unpacked mixes", NOTE, TECH, "6 C11 / AB.9 / AB.10"),
     'C12': ("Lean proof that scalar operators, apply_mask, astype, as_bit_packed_map act on exactly the valid pixels and "
             "preserve layout; API LEVEL (68 theorems): apiScalarOp / apiApplyMask / apiAstype / apiAsBitPacked as explicit "
             "equations with iff-characterisations of every error class, exactly-the-valid-pixels, sentinel collisions, "
-            "in-place = copying at the driver level; correspondence over dtypes, sentinels, in-place/copying twins",
-            NOTE, TECH, "6 C12 / AB.9"),
+            "in-place = copying at the driver level; HISTORY LEVEL (Props/C12Dense): every history of write, scalar-operator, "
+            "mask, astype, copy and accounting lines refines a dense array interpreter (reachable_dense_scalar); "
+            "correspondence over dtypes, sentinels, in-place/copying twins; division checked for IEEE correct rounding "
+            "by the harness with exact rationals", NOTE, TECH, "6 C12 / AB.9 / AB.10"),
     'C13': ("Lean proof of the bit-set semantics of wide-mask rows (pack_testBit, set/clear/xor/and/check specs, "
             "validity iff non-empty, width rules); correspondence over widths and byte-boundary bits with every bit "
             "read back; API LEVEL (39 theorems): set / clear / check / bit-list operators as set operations on per-pixel bit "
             "sets, validity = non-empty set, exact error conditions, refused calls store nothing; TRANSLATOR: "
             "_get_field_and_bitval (bits 0..127) and _bitvals_to_packed_array (every bit and pair for widths 8/16/24) "
-            "re-extracted from /repo on every run and proved equal to the model's definitions (C13Kernels)", NOTE, TECH + TECH2,
+            "re-extracted from /repo on every run and proved equal to the model's definitions (C13Kernels); HISTORY LEVEL "
+            "(Props/C13Dense): histories of write, scalar and bit lines refine a dense interpreter on per-pixel bit sets "
+            "(reachable_dense_bits)", NOTE, TECH + TECH2,
             "6 C13 / AB.9 / AB.10"),
     'C17': ("Lean proof that the MOC writer covers exactly the valid set with disjoint cells no coarser than the "
             "coverage order and that read(write) restores it (moc_cover, moc_disjoint, moc_order_ge_cov, moc_maximal, "
@@ -86,7 +92,10 @@ CLAIMS = {
             "filler neutral and dtype-preserving; opsTable_spec: every wrapper passes the ufunc / mode / flags its "
             "documentation prescribes); API LEVEL (39 theorems): exact success and error conditions, result type of the "
             "first map, union / intersection coverage, value = fold over exactly the inputs valid at the pixel by their "
-            "own sentinels, neutrality of the start value", NOTE + "translator: harness/translate_ops.py records the "
+            "own sentinels, neutrality of the start value; HISTORY LEVEL (Props/C06Dense): histories of write, multi-map, "
+            "upgrade, degrade and fracdet lines refine a dense interpreter under a side condition computed on the dense "
+            "side alone (reachable_dense_multi; the unsettled cases are exactly four #guard counterexamples on empty "
+            "coverage); lists mixing integer widths narrow to the first map's dtype (model change M5)", NOTE + "translator: harness/translate_ops.py records the "
             "wrapper arguments by execution.", "Lean 4 theorems + generated table obligations + correspondence",
             "6 C06 / AB.9"),
     'C07': ("Lean proof that degrade reduces exactly the children of each coarse pixel, masks by validity, keeps "
